@@ -38,6 +38,28 @@ MUTATIONS = [
     {"name": "c13_long_form_uses_rcx", "props": ["C13"], "edits": [(AMD, "const MOV_RAX_OPCODE: [u8; 2] = [0x48, 0xB8];", "const MOV_RAX_OPCODE: [u8; 2] = [0x48, 0xB9];"), (AMD, "const JMP_RAX_OPCODE: [u8; 2] = [0xFF, 0xE0];", "const JMP_RAX_OPCODE: [u8; 2] = [0xFF, 0xE1];")]},
     # ---- C10
     {"name": "c10_stub_ret8", "props": ["C10"], "edits": [(AMD, "        0xC3, // ret", "        0xC2, // ret imm16 (truncated)")]},
+    # ---- C06 / C07
+    {"name": "c07_counter_never_reset", "props": ["C07"], "edits": [(INJ, "            counter.store(0, std::sync::atomic::Ordering::SeqCst);", "            let _ = counter;")]},
+    {"name": "c07_reset_to_one", "props": ["C07", "C06"], "edits": [(INJ, "            counter.store(0, std::sync::atomic::Ordering::SeqCst);", "            counter.store(1, std::sync::atomic::Ordering::SeqCst);")]},
+    {"name": "c06_load_store_instead_of_fetch_add", "props": ["C06"], "edits": [(MACROS, "let prev = FAKE_COUNTER.fetch_add(1, Ordering::SeqCst);", "let prev = FAKE_COUNTER.load(Ordering::SeqCst); std::thread::yield_now(); FAKE_COUNTER.store(prev + 1, Ordering::SeqCst);", 28)]},
+    {"name": "c06_budget_off_by_one", "props": ["C06"], "edits": [(MACROS, "if prev >= $expected {", "if prev > $expected {", 28)]},
+    {"name": "c06_verifier_less_than", "props": ["C06"], "edits": [(VERIFIER, "if call_times != *expected {", "if call_times < *expected {")]},
+    {"name": "c06_message_without_actual", "props": ["C06"], "edits": [(VERIFIER, "but it is actually called {call_times} time(s)", "but it was called a different number of times")]},
+    {"name": "c06_count_before_when", "props": ["C06"], "edits": [(MACROS, """         fn fake($($arg_name: $arg_ty),*) -> $ret {
+             if $cond {
+                 let prev = FAKE_COUNTER.fetch_add(1, Ordering::SeqCst);
+                 if prev >= $expected {
+                     panic!("Fake function defined at {}:{}:{} called more times than expected", file!(), line!(), column!());
+                 }
+                 $ret_val
+             } else {""", """         fn fake($($arg_name: $arg_ty),*) -> $ret {
+             let prev = FAKE_COUNTER.fetch_add(1, Ordering::SeqCst);
+             if $cond {
+                 if prev >= $expected {
+                     panic!("Fake function defined at {}:{}:{} called more times than expected", file!(), line!(), column!());
+                 }
+                 $ret_val
+             } else {""")]},
     # ---- C15
     {"name": "c15_branch_range_typo", "props": ["C15"], "edits": [(ARM64, "-0x2000000..=0x1FF_FFFF;", "-0x2000000..=0x1FFF_FFFF;")]},
     {"name": "c15_movk_chunk_start", "props": ["C15"], "edits": [(ARM64, "emit_movk_from_address(target_addr, 32, true, u8_to_bits::<2>(2), register_name)", "emit_movk_from_address(target_addr, 48, true, u8_to_bits::<2>(2), register_name)")]},
